@@ -63,7 +63,9 @@ def main():
                     "demo_tail_with_patch": (conf.get("demo_patched_tail") or "")[-300:],
                     "test_suite_with_patch": conf.get("tests_summary"),
                     **({"equivalence_script_record_exit_on_clean_tree": conf.get("equiv_record_rc"), "equivalence_script_compare_exit_with_patch": conf.get("equiv_compare_rc"),
-                        "test_suite_note": "full suite run by the authoring sub-agent with the patch applied (676 passed + the pre-existing failure); my confirmation re-ran its equivalence script"}
+                        "test_suite_with_patch": ((load(os.path.join(d, f"tests{i}.json")) or {}).get("tests_summary")
+                                                  or "run by the authoring sub-agent only (676 passed + the pre-existing failure)"),
+                        "test_suite_exit": (load(os.path.join(d, f"tests{i}.json")) or {}).get("tests_rc")}
                        if kind == "harmless" else {}),
                 },
                 **({"every_check_run": True, "false_alarms": (ev or {}).get("false_alarms"), "not_decided": (ev or {}).get("not_decided")} if kind == "harmless" else {}),
